@@ -95,13 +95,21 @@ def act_to_step(a):
     return st
 
 
+def _opt(name, p, size=0):
+    return {"name": name, "p": p, "eph": "", "size": size, "op": "", "i": 0, "pub": "", "nonce": 0, "opt": True}
+
+
+# after a TLC path: let both endpoints consume whatever the path left on the wire (executed only if enabled)
+DRAIN = [_opt("RecvAuth", "A"), _opt("RecvAuth", "B"), _opt("Read", "A", 4096), _opt("Read", "B", 4096)]
+
+
 def schedules_from_graph(g):
     out = []
     for nodes in core.graph_schedules(g):
         rank = to_json(g.nodes[nodes[0]]["rank"])
         steps = [act_to_step(g.nodes[n]["act"]) for n in nodes[1:]]
         if steps:
-            out.append({"rank": rank, "steps": steps})
+            out.append({"rank": rank, "steps": steps + DRAIN})
     return out
 
 
